@@ -39,7 +39,7 @@ ASSUMPTIONS = [
 ]
 RULE = ("programs {ORCA,G09,NWChem,QChem,XTB,MOPAC} x atom counts (quick 1..12, thorough 1..40 incl. every residue of the block "
         "widths 5/6/10) x {1,3} steps x calculation kind {opt,grad,hess} x coordinate-source variants; every line-level "
-        "truncation point for small outputs and a strided + block-boundary set for large ones; xyz: species 1..40 atoms x "
+        "truncation point for small outputs and a strided + block-boundary set for large ones; character-level cuts (after the label, after the sign, mid-number, last exponent digit missing) inside the value lines of the last step; xyz: species 1..40 atoms x "
         "charge x mult x solvent x energy x {1..4} frames, every implicit solvent name of the library, malformed mutants; one Calculation object re-reading a completed / replaced / truncated file;  a case is non-trivial when a block wraps, "
         "several steps are present, the output is truncated or an error is expected; distinct by (program, n, steps, kind, variant, cut)")
 
@@ -1418,7 +1418,9 @@ def check_truncated(F, ctx, prog, kind, variant, case, S, r, E, xyz0, rep, cut, 
               + (": " + "; ".join(problems) if problems else "; the values read happen to be the final ones"), rep)
     elif problems:
         F.add(f"{P}.set_output_filename|truncated-auxiliary-file-accepted",
-              f"{prog} {kind}: {target} truncated after {cut} lines accepted: " + "; ".join(problems), rep)
+              f"{prog} {kind}: {target} truncated after {cut} lines"
+              + (f" and the text {rep['cut_line_text'][-30:]!r} (a number cut short, e.g. its exponent)" if rep.get("cut_line_text") else "")
+              + f" while {S.main} is complete: accepted without any error: " + "; ".join(problems), rep)
 
 
 def _a0():
@@ -1426,17 +1428,19 @@ def _a0():
     return C.a0_to_ang
 
 
-def stream_truncated(ctx, meths, F, sizes, limit):
-    SY = sys.modules[__name__]
-    plan = {"orca": [("hess", "opt", "c.out"), ("hess", "hess", "c.hess"), ("hess", "hess", "c.out"), ("out", "grad", "c.out")],
+TRUNC_PLAN = {"orca": [("hess", "opt", "c.out"), ("hess", "hess", "c.hess"), ("hess", "hess", "c.out"), ("out", "grad", "c.out")],
             "g09": [("std", "opt", "c.log"), ("std", "hess", "c.log")],
             "nwchem": [("std", "grad", "c.out"), ("std", "hess", "c.out")],
             "qchem": [("opt", "opt", "c.out"), ("sp", "hess", "c.out"), ("sp", "grad", "c.out")],
             "xtb": [("std", "opt", "c.out"), ("std", "grad", "c_xtb_OLD.grad")],
             "mopac": [("std", "opt", "c.out"), ("std", "grad", "c.out")]}
+
+
+def stream_truncated(ctx, meths, F, sizes, limit):
+    SY = sys.modules[__name__]
     for prog in SY.PROGRAMS:
         for n in sizes:
-            for variant, kind, target in plan[prog]:
+            for variant, kind, target in TRUNC_PLAN[prog]:
                 nsteps = 2 if prog not in ("xtb", "mopac") else 1
                 case, S = build_case(ctx, prog, n, nsteps, variant)
                 E = expected(prog, S.truth, n)
@@ -1586,6 +1590,110 @@ def stream_real(ctx, meths, F, real_dir):
                       f"{fn}: the projected mass-weighted Hessian block is returned, not the 'Mass-Weighted Hessian Matrix' block", rep)
             else:
                 F.add(f"{P}.{k}|wrong-value-real-file", f"{fn}: {k} {describe_mismatch(got, w)}", rep)
+    clean_dir()
+
+
+# ============================================================================ character-level truncation
+FLOAT_RE = re.compile(r"[-+]?\d+\.\d+(?:[EeDd][-+]?\d+)?")
+STEP_START = {"orca": "CARTESIAN COORDINATES (ANGSTROEM)", "g09": "Input orientation", "nwchem": "Output coordinates",
+              "qchem": "Standard Nuclear Orientation", "xtb": None, "mopac": None}
+
+
+PROP_MARK = {"orca": {"energy": ["FINAL SINGLE POINT ENERGY"], "coordinates": ["CARTESIAN COORDINATES (ANGSTROEM)"], "gradient": ["CARTESIAN GRADIENT"]},
+             "g09": {"energy": ["SCF Done"], "coordinates": ["Input orientation"], "gradient": ["Forces (Hartrees/Bohr)"]},
+             "nwchem": {"energy": ["Total DFT energy"], "coordinates": ["Output coordinates in angstroms"], "gradient": ["DFT ENERGY GRADIENTS"]},
+             "qchem": {"energy": ["Total energy in the final basis set"], "coordinates": ["Coordinates (Angstroms)"],
+                       "gradient": ["Cartesian Gradient"]},
+             "xtb": {"energy": ["TOTAL ENERGY"], "coordinates": ["final structure"], "gradient": []},
+             "mopac": {"energy": ["TOTAL ENERGY"], "coordinates": ["CARTESIAN COORDINATES"], "gradient": ["FINAL  POINT  AND  DERIVATIVES"]}}
+
+
+def line_property(lines, j, prog, n):
+    """which property's FINAL value line is line j (None if it is not the last step's energy line / a row of the last
+    coordinates or gradient block)"""
+    for prop, marks in PROP_MARK[prog].items():
+        occ = [i for i, l in enumerate(lines) if any(m in l for m in marks)]
+        if not occ:
+            continue
+        last = occ[-1]
+        if prop == "energy":
+            if j == last:
+                return prop
+        elif last < j <= last + n + 6:
+            return prop
+    return None
+
+
+def char_cuts(lines, prog, is_main, max_lines):
+    """(line index, column) pairs: inside the value-carrying lines of the last step - before the first number (after the
+    label), after its sign / first character, in the middle of a number, with the last digit (of the exponent) missing"""
+    N = len(lines)
+    start = 0
+    if is_main and STEP_START[prog]:
+        occ = [i for i, l in enumerate(lines) if STEP_START[prog] in l]
+        start = occ[-1] if occ else 0
+    end = N
+    if is_main:
+        term = [i for i, l in enumerate(lines) if any(t in l for t in TERMINATION[prog])]
+        end = term[-1] if term else N
+    isf = [bool(FLOAT_RE.search(l)) for l in lines]
+    cand = [j for j in range(start, end) if isf[j] and (j == 0 or not isf[j - 1] or j + 1 >= N or not isf[j + 1]
+                                                         or any(m in lines[j] for m in MARKERS[prog]))]
+    if len(cand) > max_lines:
+        st = len(cand) / max_lines
+        cand = sorted({cand[int(k * st)] for k in range(max_lines)} | {cand[-1]})
+    out = []
+    for j in cand:
+        toks = list(FLOAT_RE.finditer(lines[j]))
+        cols = set()
+        for m in (toks[0], toks[-1]):
+            a, b = m.span()
+            cols.update({a, a + 1, (a + b) // 2, b - 1})
+        out += [(j, c) for c in sorted(cols) if 0 <= c < len(lines[j])]
+    return out
+
+
+def stream_char_truncated(ctx, meths, F, sizes, max_lines):
+    """the output ends in the MIDDLE of a line of the last step (no newline)"""
+    SY = sys.modules[__name__]
+    for prog in SY.PROGRAMS:
+        for n in sizes:
+            for variant, kind, target in TRUNC_PLAN[prog]:
+                nsteps = 2 if prog not in ("xtb", "mopac") else 1
+                case, S = build_case(ctx, prog, n, nsteps, variant)
+                E = expected(prog, S.truth, n)
+                xyz0 = case.steps[0]["xyz"]
+                full = S.files[target]
+                term_line = max([i for i, l in enumerate(S.files[S.main]) if any(t in l for t in TERMINATION[prog])] or [10 ** 9])
+                P = PNAME[prog]
+                for j, c in char_cuts(full, prog, target == S.main, max_lines):
+                    materialise(prog, variant, case, S)
+                    with open(target, "w") as f:
+                        f.write("\n".join(full[:j] + [full[j][:c]]))
+                    if prog == "xtb" and target != "c_xtb_OLD.grad":
+                        write_files({"c_xtb_OLD.grad": S.files["c_xtb_OLD.grad"]})
+                    rep = {"stream": "synth-char-truncated", "prog": prog, "n": n, "nsteps": nsteps, "variant": variant,
+                           "kind": kind, "target": target, "line": j, "column": c, "cut_line_text": full[j][:c]}
+                    r = run_calc(meths, prog, kind, case, S.main, xyz0)
+                    ctx.count("synth-char-truncated", (prog, variant, n, kind, target, j, c), nontrivial=True,
+                              sample=rep if c and c % 7 == 0 else None)
+                    fell_back = None
+                    prop = line_property(full, j, prog, n) if target == S.main else None
+                    if r["ok"] and nsteps > 1 and prop is not None:
+                        got, fin, earlier = {"energy": (r["energy"], E["energy"], E["all_e"][:-1]),
+                                             "coordinates": (r["coords"] if kind == "opt" else None,
+                                                             expected_coords(prog, variant, kind, case, S, E, xyz0), E["all_xyz"][:-1]),
+                                             "gradient": (r["grad"], E["grad"], E["all_g"][:-1])}[prop]
+                        if got is not None and not close(got, fin) and any(close(got, o) for o in earlier):
+                            fell_back = prop
+                    if fell_back:
+                        F.add(f"{P}.{fell_back}|cut-inside-final-value-line-returns-earlier-step",
+                              f"{prog} {kind} ({variant}) output ending inside line {j + 1} of {target} ({full[j][:c].strip()[-40:]!r}, cut "
+                              f"after column {c} of the last step's value line): no error is raised and the {fell_back} of an EARLIER "
+                              f"step is returned ({describe_mismatch(r[{'energy': 'energy', 'coordinates': 'coords', 'gradient': 'grad'}[fell_back]], {'energy': E['energy'], 'coordinates': E['coords'], 'gradient': E['grad']}[fell_back], {'energy': E['all_e'], 'coordinates': E['all_xyz'], 'gradient': E['all_g']}[fell_back][:-1])})",
+                              rep)
+                        continue
+                    check_truncated(F, ctx, prog, kind, variant, case, S, r, E, xyz0, rep, j, target, term_line)
     clean_dir()
 
 
@@ -1960,14 +2068,20 @@ def stream_model(ctx, meths, F, atom_counts, trunc_limit, n_titles):
             if prog == "orca":
                 toks = num_lines(blk)
                 add(f"check_orca_layout 5%nat {qc_mat(Mtok)} {qc_mat(toks)}", dict(d, what="layout"), ("orca-layout", n))
-                add(f"check_orca_parse {R}%nat {qc_mat(toks + [[]])} {cls}%nat {mat(scale(H) if H is not None else None)}",
+                add(f"check_orca_file true {R}%nat {qc_mat(toks + [[]])} {cls}%nat {mat(scale(H) if H is not None else None)}",
                     dict(d, what="parse"), ("orca-parse", n))
                 cuts = cut_list(len(blk), trunc_limit)
                 for k in cuts:
                     write_files({target: head + blk[:k]})
                     c2, H2 = impl_hessian(meths, prog, case, S.main, xyz0)
-                    add(f"check_orca_parse {R}%nat {qc_mat(num_lines(blk[:k]))} {c2}%nat {mat(scale(H2) if H2 is not None else None)}",
+                    add(f"check_orca_file false {R}%nat {qc_mat(num_lines(blk[:k]))} {c2}%nat {mat(scale(H2) if H2 is not None else None)}",
                         dict(d, what="truncated", cut=k), ("orca-trunc", n, k))
+                    # the same cut with the rest of the file ($vibrational_frequencies ... $end) still present: the
+                    # closing line is there, so the block itself is parsed by the reassembly rule
+                    write_files({target: head + blk[:k] + L[j:]})
+                    c3, H3 = impl_hessian(meths, prog, case, S.main, xyz0)
+                    add(f"check_orca_file true {R}%nat {qc_mat(num_lines(blk[:k]) + [[]])} {c3}%nat {mat(scale(H3) if H3 is not None else None)}",
+                        dict(d, what="block-lines-missing", cut=k), ("orca-missing", n, k))
             elif prog == "qchem":
                 # complete: the block the implementation uses (QChem.py:349-351, commit 5fcb1eb: not the projected one)
                 i = marks[0]
@@ -2193,11 +2307,11 @@ def stream_model_xyz(ctx, add, reader_key):
 # ============================================================================ entry points
 def tiers(ctx):
     if ctx.quick:
-        return {"complete": [1, 2, 3, 4, 5, 6, 7, 10, 12], "steps": [1, 3], "trunc": [(1, 120), (2, 50), (3, 24)], "reuse": [2, 7],
+        return {"complete": [1, 2, 3, 4, 5, 6, 7, 10, 12], "steps": [1, 3], "trunc": [(1, 120), (2, 50), (3, 24)], "reuse": [2, 7], "chars": ([2], 14),
                 "xyz": ([1, 2, 3, 5, 8, 12], 3),
                 "model": ({"orca": [1, 2, 3], "qchem": [1, 3], "nwchem": [2, 4], "g09": [1, 3]}, 8, 20)}
     return {"complete": list(range(1, 41)), "steps": [1, 3], "trunc": [(1, 1000), (2, 1000), (3, 600), (5, 300), (7, 200), (12, 150)],
-            "reuse": [1, 2, 3, 6, 7, 12, 20], "xyz": (list(range(1, 41)), 4),
+            "reuse": [1, 2, 3, 6, 7, 12, 20], "chars": ([1, 2, 3, 5], 30), "xyz": (list(range(1, 41)), 4),
             "model": ({p: [1, 2, 3, 4, 5] for p in ("orca", "qchem", "nwchem", "g09")}, 30, 300)}
 
 
@@ -2237,6 +2351,9 @@ def run(ctx):
             stream_truncated(ctx, meths, F, [n], limit)
         ctx.log(f"truncated outputs done: {F.count} oracle failures so far; outcome histogram "
                 f"{ctx.cov['streams'].get('synth-truncated', {}).get('histogram')}")
+        # 4a. the output ends in the middle of a value line of the last step
+        stream_char_truncated(ctx, meths, F, *T["chars"])
+        ctx.log(f"character-level truncation done: {F.count} oracle failures so far")
         # 4b. one calculation object, output rewritten under the same name
         stream_reuse(ctx, meths, F, T["reuse"])
         ctx.log(f"re-used calculation objects done: {F.count} oracle failures so far")
